@@ -2,3 +2,4 @@ import TdxProofs.Props.C09
 import TdxProofs.Props.C15
 import TdxProofs.Props.C20
 import TdxProofs.Props.C17
+import TdxProofs.Props.C13
